@@ -384,6 +384,15 @@ pub fn check(sizes: &(u64, u64, u64), rec: &mut Rec) -> Result<Value, Fail> {
                     format!("{}: peak extra heap is {} bytes on an FST of {} keys ({} items emitted) but {} bytes on one of {} keys ({} items) — more than 1.10 x + 4 KiB", op, ps, small_n, items_s, pb, big_n, items_b),
                 ));
             }
+            // the number of allocations of a traversal depends on key lengths and stream counts,
+            // not on how many keys there are (identical counts at both sizes on the pinned tree)
+            let (als, alb) = (g(&small, "allocs"), g(&big, "allocs"));
+            if alb > als + als / 4 + 8 {
+                return Err(Fail::new(
+                    "allocations-grow-with-size",
+                    format!("{}: {} heap allocations on an FST of {} keys ({} items emitted) but {} on one of {} keys ({} items) - the number of allocations grows with the FST", op, als, small_n, items_s, alb, big_n, items_b),
+                ));
+            }
             // absolute sanity cap for k-way operations: generous, proportional to k
             let k = op.rsplit("_k").next().and_then(|s| s.parse::<u64>().ok()).unwrap_or(1);
             let cap = k * 16 * 1024 + 32 * 1024;
@@ -412,7 +421,7 @@ fn run_child2(n: u64, seed: u64) -> Result<Value, Fail> {
 }
 
 pub fn run(e: &Engine) {
-    e.set_rule("cases are (operation, k, FST size): in single-threaded child processes with a counting allocator, FSTs of two sizes (keys <= 32 bytes) are built, then for each of stream, range, search (Subsequence, StartsWith(Str), generated DFA with bounds), search_with_state and union/intersection/difference/symmetric_difference over k in {2,3,8} FSTs the peak extra heap from before into_stream() to exhaustion is measured; violation iff peak(large) > 1.10 * peak(small) + 4 KiB or above a generous k-proportional cap; Fst::new / Map::new / Set::new over borrowed slices, a Cow and mapped bytes, get, contains_key, contains, len must perform zero allocations; the Map/Set streams (stream, keys, values, range, search, search_with_state), their OpBuilders and the subset/disjoint predicates are measured like the raw ones; evaluations counts (operation, size pair); non-trivial = traversal emitting >= 10^4 items; distinct by (operation, k, N)");
+    e.set_rule("cases are (operation, k, FST size): in single-threaded child processes with a counting allocator, FSTs of two sizes (keys <= 32 bytes) are built, then for each of stream, range, search (Subsequence, StartsWith(Str), generated DFA with bounds), search_with_state and union/intersection/difference/symmetric_difference over k in {2,3,8} FSTs the peak extra heap from before into_stream() to exhaustion is measured; violation iff peak(large) > 1.10 * peak(small) + 4 KiB, or allocations(large) > 1.25 * allocations(small) + 8, or above a generous k-proportional cap; Fst::new / Map::new / Set::new over borrowed slices, a Cow and mapped bytes, get, contains_key, contains, len must perform zero allocations; the Map/Set streams (stream, keys, values, range, search, search_with_state), their OpBuilders and the subset/disjoint predicates are measured like the raw ones; evaluations counts (operation, size pair); non-trivial = traversal emitting >= 10^4 items; distinct by (operation, k, N)");
     e.assume("finitely many N; tolerances calibrated on the pinned tree (stream 2.6 kB, 3-way union 8.6 kB, identical at 10^4 and 10^6 keys)");
     let pairs: Vec<(u64, u64, u64)> = match e.tier {
         crate::engine::Tier::Quick => vec![(10_000, 400_000, e.seed), (20_000, 200_000, e.seed ^ 9)],
